@@ -306,9 +306,9 @@ def h_jsx_strings(k: int, s: str) -> bool:
         return True     # private serialiser kernels were refactored away: whole components are still checked by h_jsx_js
     want = '"' + _esc(s) + '"'
     if k == 0:
-        return _render_react_js(s, 0, "\n") == want and _render_react_js(s, 2, "\n") == "    " + want
+        return _denotes(_render_react_js(s, 0, "\n"), s, want) and _denotes(_render_react_js(s, 2, "\n").strip(" "), s, want)
     if k == 1:
-        return _serialize_attr(s) == want
+        return _denotes(_serialize_attr(s), s, want)
     if k == 2:
         return _serialize_attr([1, s, (s,)]) == "[1, " + want + ", [" + want + "]]"
     if k == 3:
@@ -317,6 +317,53 @@ def h_jsx_strings(k: int, s: str) -> bool:
         return _serialize_style_attr({"color": s}) == '{"color": ' + want + "}"
     comp = JSXTag("C", s, p=s)
     return _render_react_js(comp, 0, "\n") == 'React.createElement(\n  C, {"p": ' + want + "},\n  " + want + "\n)"
+
+
+def js_decode(litr: str):
+    """the text a double-quoted JavaScript string literal denotes, or None if it is not one literal"""
+    n = len(litr)
+    if n < 2 or litr[0] != '"' or litr[n - 1] != '"':
+        return None
+    out = ""
+    i = 1
+    while i < n - 1:
+        c = litr[i]
+        if c == '"' or c == "\n" or c == "\r":
+            return None
+        if c != "\\":
+            out += c
+            i += 1
+            continue
+        if i + 1 >= n - 1:
+            return None
+        e = litr[i + 1]
+        simple = {'"': '"', "\\": "\\", "/": "/", "b": "\b", "f": "\f", "n": "\n", "r": "\r", "t": "\t", "'": "'", "v": "\v", "0": "\0"}
+        if e in simple:
+            out += simple[e]
+            i += 2
+        elif e == "u" and i + 5 < n:
+            try:
+                out += chr(int(litr[i + 2:i + 6], 16))
+            except ValueError:
+                return None
+            i += 6
+        elif e == "x" and i + 3 < n:
+            try:
+                out += chr(int(litr[i + 2:i + 4], 16))
+            except ValueError:
+                return None
+            i += 4
+        else:
+            return None
+    return out
+
+
+def _denotes(got: str, s: str, want: str) -> bool:
+    """`got` is the expected raw literal, or any other double-quoted literal that denotes the same text"""
+    if got == want:
+        return True
+    d = js_decode(got)
+    return d is not None and d == s
 
 
 def _esc(s: str) -> str:
